@@ -999,7 +999,7 @@ def main():
     preimport("eko.msbar_masses", "eko.couplings", "refs.decoupling", "refs.rge_literature")
     chk.bounds = ["compute: nf_ref in {3,4,5,6}, all three reference masses, their scales and the coupling reference scale free positive symbols (squares), "
                   "fixed points / evolved values arbitrary positive symbols; every feasible path of the bookkeeping",
-                  "solve: orders 2-4, expanded and exact coupling method, start value and reference mass symbolic in (1, 1000) GeV^2, nf=5 patch",
+                  "solve: expanded coupling method at orders 2-3 and exact at orders 2-4 (quick: order 3; the order-4 expanded closed form on plain symbols exceeds the time cap), start value and reference mass symbolic in (1, 1000) GeV^2, nf=5 patch",
                   "kernels: orders 1-4, symbolic beta_k, gamma_k (all nf); evolve: single thresholds in both directions and the routes 3->5, 6->4, orders 1-4, "
                   "symbolic couplings, logarithms and xif2; RG / published-relation comparison through O(a^(order-1)) for nf_l = 3, 4, 5"]
     chk.out_of_claim = ["existence, uniqueness and numerical accuracy of the fixed point found by MINPACK (fsolve) and of QUADPACK (quad)",
@@ -1016,7 +1016,7 @@ def main():
     for nf_ref in (3, 4, 5, 6):
         chk.case("compute.bookkeeping.nfref%d" % nf_ref, case_bookkeeping, nf_ref=nf_ref)
     for method in ("expanded", "exact"):
-        for order in ((3,) if not thorough else (2, 3, 4)):
+        for order in ((3,) if not thorough else ((2, 3, 4) if method == "exact" else (2, 3))):
             chk.case("solve.%s.o%d" % (method, order), case_solve, order=order, method=method)
     chk.case("ker.expanded", case_ker_expanded)
     chk.case("ker.exact+dispatcher", case_ker_exact)
